@@ -27,6 +27,7 @@ THEOREMS = [
     "C04_pytree_idempotent",
     "C04_pytree_fail_restores",
     "C04_check_restores",
+    "C04_source_pytree_rollback",
 ]
 RULE = (
     "cases = (prior accepted checks, target check) inside one context; the target is an array or "
@@ -140,6 +141,19 @@ def pytree_cases(rng, n_random, thorough):
     # a structure name bound earlier survives a failing / raising ARRAY check made in the same context
     for bad_dims, bad_shape in (("n m", [3]), ("zz+1", [3]), ("a a", [2, 3])):
         cases.append(([], arr_type(bad_dims), arr_val(bad_shape), {}, None, {"t": "pytree", "l": gen_prog.INT, "s": "T"}, {"t": "tuple", "xs": [gen_prog.ival(1), gen_prog.ival(2)]}))
+    # the leaf type is itself a PyTree WITH a structure name (also inside a union): flattening asks the leaf test at every
+    # node, and where a subtree matches, the inner name is bound on the spot — a tree rejected (or raising) later on must
+    # take that binding back as well
+    I = gen_prog.INT
+    iv = gen_prog.ival
+    inner_s = {"t": "pytree", "l": I, "s": "S"}
+    pair, other = {"t": "tuple", "xs": [iv(1), iv(2)]}, {"t": "tuple", "xs": [iv(3), gen_prog.sval("x")]}
+    for lt_ in (inner_s, {"t": "union", "ts": [inner_s, gen_prog.STR]}):
+        for sname in (None, "T", "T Q"):
+            for tree in ({"t": "list", "xs": [pair, other]}, {"t": "list", "xs": [pair, pair, {"t": "tuple", "xs": [iv(1), iv(2), iv(3)]}]},
+                         {"t": "dict", "keys": ["p", "q"], "vals": [pair, other]}, {"t": "list", "xs": [pair, pair]}):
+                for prior in ([], [("a", [3])]):
+                    cases.append((prior, {"t": "pytree", "l": lt_, "s": sname}, tree, {}))
     for _ in range(n_random):
         lt = gen_prog.rand_leaf_type(rng)
         alpha = {nm: rng.below(4) for nm in gen_dims.NAMES}
